@@ -55,6 +55,7 @@ fn main() {
         ("record", "stroke") => stroke::record(&args[3]),
         ("record", "ik") => solver::record(&args[3], &args[4]),
         ("record", "follow") => solver::record_follow(&args[3]),
+        ("debug", "ik") => solver::debug_ik(&args[3], &args[4], args.get(5).map(|s| s.as_str())),
         _ => {
             eprintln!("unknown command {:?}", &args[1..]);
             std::process::exit(2);
